@@ -5,7 +5,8 @@
 (*      [NOFIELDS] area.                                                   *)
 (*                                                                         *)
 (* Objects of ONE collection sit on numbered cells (0 = the object does    *)
-(* not exist) and carry one numeric field.  The constant Fences lists all  *)
+(* not exist, -1 = it exists as a string value, i.e. without a position)   *)
+(* and carry one numeric field.  The constant Fences lists all  *)
 (* fences registered on the collection.  Every write (SET, FSET, DEL,      *)
 (* PDEL, DROP, expiry of a SET .. EX) yields, for EVERY fence, the list of *)
 (* notifications the fence's receiver must see.  Geometry is NOT computed  *)
@@ -42,11 +43,13 @@ CONSTANTS
   Fences,    \* sequence of records [cls, dflt, detect]: a class with a DETECT clause (dflt: no clause = all five)
   Inside,    \* Inside[a][c]     : an object on cell c satisfies the spatial test of area a
   Cross,     \* Cross[a][c][d]   : the segment between the centres of cells c and d meets area a
+  CrossO,    \* CrossO[a][c]     : the segment between longitude 0 / latitude 0 and the centre of c meets area a
   Touch,     \* Touch[a][c]      : the rectangle of an object on c meets the bounding rectangle of a
   TouchU,    \* TouchU[a][c][d]  : the rectangle spanned by objects on c and d meets the bounding rectangle of a
   FVals,     \* values of the field; 0 = field absent (the only zero)
   SetVals,   \* FIELD options of a generated SET: values of FVals, -1 = no FIELD clause (the fields are kept)
   ExCells,   \* cells for which SET .. EX followed by its expiry is generated as well
+  WithStr,   \* also generate SET key id STRING text (the object stays, its position is gone)
   PdelPats,  \* id patterns for PDEL
   Variant,   \* "intended" or the name of a broken design (see below)
   MaxHist    \* length bound of generated behaviours
@@ -58,7 +61,7 @@ KIds   == 1..Len(Classes)
 K(f)   == Fences[f].cls
 Areas  == {Classes[k].area : k \in KIds}
 Detects == {"inside", "outside", "enter", "exit", "cross"}
-Variants == {"intended", "NoFallback", "CrossAlone", "FsetEnter", "CrossFromInside", "NoUnionSearch", "NewRectOnly"}
+Variants == {"intended", "NoFallback", "CrossAlone", "FsetEnter", "CrossFromInside", "NoUnionSearch", "NewRectOnly", "StrOrigin"}
 
 ASSUME ConfigSane ==
   /\ Variant \in Variants
@@ -89,9 +92,9 @@ GlobMatch(p, s) ==
 GlobT == [k \in KIds |-> [o \in Objs |-> GlobMatch(Classes[k].glob, IdSeq[o])]]
 Glob(k, o)  == GlobT[k][o]                                     \* MATCH of the fence (default "*")
 Where(k, v) == Classes[k].where => (Classes[k].wlo <= v /\ v <= Classes[k].whi)   \* WHERE field lo hi; absent = 0
-Sp(k, c)    == c # 0 /\ Inside[Classes[k].area][c]             \* spatial test alone
+Sp(k, c)    == c > 0 /\ Inside[Classes[k].area][c]             \* spatial test alone (false without a position)
 In(k, c, v) == Sp(k, c) /\ Where(k, v)                         \* "inside the fence": area and WHERE
-Seg(k, c, d) == c # 0 /\ d # 0 /\ Cross[Classes[k].area][c][d]
+Seg(k, c, d) == c > 0 /\ d > 0 /\ Cross[Classes[k].area][c][d]    \* a path needs two positions
 
 -----------------------------------------------------------------------------
 (* The statement of C05.  Previous position oc (0 = none; FSET carries no   *)
@@ -131,6 +134,8 @@ CodedDetect(k, cmd, oc, ov, nc, nv) ==
      ELSE IF cmd = "fset" THEN "outside"
      ELSE IF ~Where(k, nv) THEN "none"
      ELSE IF ~nocross /\ Seg(k, oc, nc) THEN "cross"
+     \* deviation StrOrigin: a previous string value is treated as a position at longitude 0 / latitude 0
+     ELSE IF Variant = "StrOrigin" /\ oc = -1 /\ CrossO[Classes[k].area][nc] THEN "cross"
      ELSE "outside"
 
 \* the loop `for { if fence.detect != nil && !fence.detect[detect] ...' : "none" = return nil
@@ -166,9 +171,9 @@ InCrossTree(f)    == ~Fences[f].dflt /\ "cross" \in Fences[f].detect   \* regist
 Candidate(f, oc, nc) ==
   LET a == Classes[K(f)].area
   IN \/ DetectsOutside(f)
-     \/ Variant # "NoUnionSearch" /\ oc # 0 /\ nc # 0 /\ InCrossTree(f) /\ TouchU[a][oc][nc]
-     \/ Variant # "NewRectOnly" /\ oc # 0 /\ Touch[a][oc]
-     \/ nc # 0 /\ Touch[a][nc]
+     \/ Variant # "NoUnionSearch" /\ oc > 0 /\ nc > 0 /\ InCrossTree(f) /\ TouchU[a][oc][nc]
+     \/ Variant # "NewRectOnly" /\ oc > 0 /\ Touch[a][oc]
+     \/ nc > 0 /\ Touch[a][nc]
 \* a webhook / channel receives Coded if pre-selected, else nothing; a live connection always Coded
 
 -----------------------------------------------------------------------------
@@ -231,6 +236,14 @@ Set(o, c, v, withex) ==
   /\ ex' = [ex EXCEPT ![o] = withex]
   /\ hist' = Append(hist, Step("set", o, c, v, withex, <<>>, MoveMsgs("set", o, pos[o], fld[o], c, NewVal(o, v), "must")))
 
+\* SET key id STRING text: the object keeps its id, fields and absence of a deadline, but has no position any more;
+\* a value without position is nothing a fence reports (nor is its FSET or deletion)
+SetStr(o) ==
+  /\ Quiet /\ WithStr
+  /\ pos' = [pos EXCEPT ![o] = -1]
+  /\ UNCHANGED <<fld, ex>>
+  /\ hist' = Append(hist, Step("setstr", o, 0, -1, FALSE, <<>>, [f \in FIds |-> <<>>]))
+
 \* FSET key id f v: a change is reported by the current position; an FSET that changes nothing is not a write
 \* (the statement does not say whether it notifies: "may")
 Fset(o, v) ==
@@ -238,7 +251,8 @@ Fset(o, v) ==
   /\ fld' = [fld EXCEPT ![o] = v]
   /\ UNCHANGED <<pos, ex>>
   /\ hist' = Append(hist, Step("fset", o, pos[o], v, FALSE, <<>>,
-               MoveMsgs("fset", o, 0, 0, pos[o], v, IF v = fld[o] THEN "may" ELSE "must")))
+               IF pos[o] = -1 THEN [f \in FIds |-> <<>>]
+               ELSE MoveMsgs("fset", o, 0, 0, pos[o], v, IF v = fld[o] THEN "may" ELSE "must")))
 
 Gone(S) == /\ pos' = [o \in Objs |-> IF o \in S THEN 0 ELSE pos[o]]
            /\ fld' = [o \in Objs |-> IF o \in S THEN 0 ELSE fld[o]]
@@ -252,14 +266,15 @@ Del(o) ==
   /\ Quiet
   /\ Gone({o})
   /\ hist' = Append(hist, Step("del", o, 0, 0, FALSE, <<>>,
-               [f \in FIds |-> IF pos[o] = 0 THEN <<>> ELSE DelItems(f, <<o>>, pos, fld)]))
+               [f \in FIds |-> IF pos[o] <= 0 THEN <<>> ELSE DelItems(f, <<o>>, pos, fld)]))
 
 \* PDEL key pattern: one `del' per deleted object
 PdelSet(pat) == {o \in Objs : pos[o] # 0 /\ GlobMatch(pat, IdSeq[o])}
+Placed(S) == {o \in S : pos[o] > 0}       \* deleted objects that had a position
 Pdel(pat) ==
   /\ Quiet
   /\ Gone(PdelSet(pat))
-  /\ hist' = Append(hist, Step("pdel", 0, 0, 0, FALSE, pat, [f \in FIds |-> DelItems(f, AscSeq(PdelSet(pat)), pos, fld)]))
+  /\ hist' = Append(hist, Step("pdel", 0, 0, 0, FALSE, pat, [f \in FIds |-> DelItems(f, AscSeq(Placed(PdelSet(pat))), pos, fld)]))
 
 \* DROP key
 Drop ==
@@ -278,6 +293,7 @@ Expire(o) ==
 Next == /\ Len(hist) < MaxHist
         /\ \/ \E o \in Objs, c \in Cells, v \in SetVals, x \in BOOLEAN : Set(o, c, v, x)
            \/ \E o \in Objs, v \in FVals : Fset(o, v)
+           \/ \E o \in Objs : SetStr(o)
            \/ \E o \in Objs : Del(o) \/ Expire(o)
            \/ \E p \in PdelPats : Pdel(p)
            \/ Drop
@@ -286,13 +302,13 @@ Spec == Init /\ [][Next]_vars
 View == <<pos, fld, ex>>
 
 -----------------------------------------------------------------------------
-TypeOK == /\ pos \in [Objs -> 0..NCells]
+TypeOK == /\ pos \in [Objs -> -1..NCells]
           /\ fld \in [Objs -> FVals]
           /\ ex \in [Objs -> BOOLEAN]
           /\ \A o \in Objs : pos[o] = 0 => fld[o] = 0 /\ ~ex[o]
 
 LastH == hist'[Len(hist')]
-IsMove == LastH.op \in {"set", "fset"}
+IsMove == LastH.op \in {"set", "fset"} /\ pos'[LastH.o] > 0
 \* arguments of the last SET / FSET as fenceMatch sees them
 MOc == IF LastH.op = "set" THEN pos[LastH.o] ELSE 0
 MOv == IF LastH.op = "set" THEN fld[LastH.o] ELSE 0
